@@ -269,6 +269,49 @@ def run(chk: lib.Check):
                     except Exception as e:  # noqa: BLE001
                         tcases.append(((KINDS["git"], sub, f), err_of(e)))
                 chk.note_case(("h", sub, f), nontrivial=(".." in f or f.startswith("/")))
+            # every URL placeholder: the inserted text must not add path, query or fragment structure
+            templates = ["http://host.invalid/base/%d/%n.%e?rev=1", "http://host.invalid/get?file=%q&rev=1", "http://host.invalid/%s/raw"]
+            specials = ["a/model.x&admin=1", "a/m.y#frag", "a/m.z?q=1", "d e/n m.a%41b", "a/../b/c.d=e", "m.aird", "x/y.z w", "a/b.c;d", "n.é", "a/q.%2e%2e"]
+            for tpl in templates:
+                th = http.HTTPFileHandler(tpl, subdir=sub)
+                for f in hpaths[:60] + specials:
+                    urls2: list = []
+                    http.DownloadStream = type("FakeDS2", (), {"__init__": lambda self, session, url, *a, **k: urls2.append(url)})
+                    try:
+                        try:
+                            th.open(f)
+                        except Exception as e:  # noqa: BLE001
+                            urls2.append(err_of(e))
+                    finally:
+                        http.DownloadStream = orig_ds
+                    if not urls2 or isinstance(urls2[0], Err):
+                        continue
+                    url = urls2[0]
+                    sp = urllib.parse.urlsplit(url)
+                    tsp = urllib.parse.urlsplit(tpl)
+                    norm = list(helpers.normalize_pure_path(f).parts)
+                    full = pathlib.PurePosixPath(*sub_parts, *norm) if (sub_parts or norm) else pathlib.PurePosixPath(".")
+                    bad = None
+                    if sp.fragment or (sp.netloc != tsp.netloc):
+                        bad = "fragment or host changed"
+                    elif "%q" in tpl:
+                        q = urllib.parse.parse_qsl(sp.query, keep_blank_values=True)
+                        if [k for k, _ in q] != ["file", "rev"] or q[1][1] != "1" or q[0][1] != str(full).lstrip("/"):
+                            bad = f"query structure {q}"
+                    elif "%d" in tpl and not full.name:
+                        pass        # the handler's own path arithmetic refuses an empty name; nothing to compare
+                    elif "%d" in tpl:
+                        want_path = "/base/" + urllib.parse.quote(str(full.parent).lstrip("/")) + "/" + urllib.parse.quote(full.with_suffix("").name) + "." + urllib.parse.quote(full.suffix.lstrip("."))
+                        if sp.query != "rev=1" or urllib.parse.unquote(sp.path) != urllib.parse.unquote(want_path) or sp.path.count("/") != want_path.count("/"):
+                            bad = f"path {sp.path!r} query {sp.query!r} (expected path {want_path!r}, query 'rev=1')"
+                    else:
+                        if sp.query or not sp.path.endswith("/raw") or ".." in sp.path.split("/"):
+                            bad = f"path {sp.path!r} query {sp.query!r}"
+                    chk.note_case(("url", tpl, sub, f), nontrivial=True)
+                    if bad:
+                        chk.violation(f"http-url-structure:{'%q' if '%q' in tpl else '%d%n%e' if '%d' in tpl else '%s'}",
+                                      f"HTTPFileHandler({tpl!r}, subdir={sub!r}).open({f!r}) requests {url!r}: {bad}",
+                                      {"handler": "http", "template": tpl, "subdir": sub, "file": f, "url": url})
             # FilePath.joinpath from the handler's rootdir
             for f in hpaths[:200]:
                 try:
